@@ -1,7 +1,7 @@
 (* C17 — radial spectrum: every mode lands in its documented bin with Parseval weights.
    Model: Spectral/Spectrum.v (hand-written from get_spectrum in _spectral.py; exact correspondence of whole spectra on every run). *)
 From Coq Require Import ZArith QArith List Bool Lia.
-From EXV Require Import Base.Scalar Base.FieldLemmas Layout.Freq Spectral.Spectrum Spectral.SpectrumProofs.
+From EXV Require Import Base.Scalar Base.FieldLemmas Layout.Freq Spectral.Spectrum Spectral.SpectrumProofs Nonlin.Conv.
 Import ListNotations.
 Ltac splits := repeat match goal with |- _ /\ _ => split end.
 
@@ -37,3 +37,10 @@ Print Assumptions C17_weights.
 
 Example C17_ex : in_bin 5 [3; 4]%Z = true /\ in_bin 4 [3; 4]%Z = false /\ in_bin 2 [1; 1; 1]%Z = true /\ in_bin 0 [0; 0]%Z = true.
 Proof. repeat split; reflexivity. Qed.
+
+(* the bins 0..N/2 together carry every stored mode inside the Nyquist sphere exactly once and nothing else: the binned spectrum summed over
+   all bins is the total of the per-mode quantities inside the sphere (sum binning; any list of stored modes, any D, any channel) *)
+Theorem C17_bins_total : forall (F : FieldT) (N : Z) (qs : list (list Z * F)), (0 <= N)%Z ->
+  fsum (map (fun b => bin_sum F b qs) (zrange 0 (N / 2))) = fsum (map (fun p => if inside N (fst p) then snd p else o0) qs).
+Proof. intros. apply bins_total. assumption. Qed.
+Print Assumptions C17_bins_total.
